@@ -407,7 +407,7 @@ func (p *parser) parseFunctionAliases(params []ast.ParameterInfo, validate func(
 	for _, v := range rawAliases {
 		// scan the raw alias withouth the ""
 		didError := false
-		errHandleWrapper := func(err ddperror.Error) { didError = true; p.errorHandler(err) }
+		errHandleWrapper := func(err ddperror.Error) { didError = true; err.File = p.module.FileName; p.errorHandler(err) }
 
 		scanAndValidate := func(t token.Token, negated bool) {
 			alias, err := scanner.ScanAlias(t, errHandleWrapper)
@@ -1162,7 +1162,7 @@ func (p *parser) parseStructAliases(fieldsForValidation []*ast.VarDecl) (structA
 
 	for _, rawAlias := range rawAliases {
 		didError := false
-		errHandleWrapper := func(err ddperror.Error) { didError = true; p.errorHandler(err) }
+		errHandleWrapper := func(err ddperror.Error) { didError = true; err.File = p.module.FileName; p.errorHandler(err) }
 		if aliasTokens, err := scanner.ScanAlias(*rawAlias, errHandleWrapper); err == nil && !didError {
 			if len(aliasTokens) < 2 { // empty strings are not allowed (we need at leas 1 token + EOF)
 				p.err(ddperror.SEM_MALFORMED_ALIAS, rawAlias.Range, "Ein Alias muss mindestens 1 Symbol enthalten")
@@ -1297,7 +1297,7 @@ func (p *parser) aliasDecl() ast.Statement {
 	// scan the raw alias withouth the ""
 	var alias *ast.FuncAlias
 	var pTokens []*token.Token
-	if aliasTokens, err := scanner.ScanAlias(*aliasTok, func(err ddperror.Error) { p.errVal(err) }); err == nil && len(aliasTokens) < 2 { // empty strings are not allowed (we need at leas 1 token + EOF)
+	if aliasTokens, err := scanner.ScanAlias(*aliasTok, func(err ddperror.Error) { err.File = p.module.FileName; p.errVal(err) }); err == nil && len(aliasTokens) < 2 { // empty strings are not allowed (we need at leas 1 token + EOF)
 		p.err(ddperror.SEM_MALFORMED_ALIAS, aliasTok.Range, "Ein Alias muss mindestens 1 Symbol enthalten")
 	} else if err := p.validateFunctionAlias(aliasTokens, funDecl.Parameters); err == nil { // check that the alias fits the function
 		if ok, isFun, existingAlias, toks := p.aliasExists(aliasTokens); ok {
